@@ -2,6 +2,7 @@ package dvm
 
 import (
 	"fmt"
+	"net/url"
 	"regexp"
 	"strings"
 
@@ -26,6 +27,21 @@ func splitPath(p string) []string {
 		return []string{}
 	}
 	return strings.Split(p, "/")
+}
+
+// splitPathExact inverts pathutil.Pathstr ("/" + escaped element, for every element), keeping
+// empty elements: the empty string is a legitimate path token (the value of type empty).
+func splitPathExact(p string) []string {
+	if p == "" {
+		return []string{}
+	}
+	out := strings.Split(strings.TrimPrefix(p, "/"), "/")
+	for i, e := range out {
+		if u, err := url.QueryUnescape(e); err == nil {
+			out[i] = u
+		}
+	}
+	return out
 }
 
 // PathVerdict is what ModelSet.Validate said about a path, in the terms of the spec:
@@ -64,13 +80,13 @@ func ValidatePath(ms schema.ModelSet, p []string, inc bool) (v PathVerdict) {
 	switch e := err.(type) {
 	case *mgmterror.UnknownElementApplicationError:
 		// Path = the elements before the offending one, info = the offending element
-		v.At = len(splitPath(e.Path)) + 1
+		v.At = len(splitPathExact(e.Path)) + 1
 		if len(e.Info) > 0 {
 			v.Tok = e.Info[0].Value
 		}
 		v.Form = "unknown-element"
 	case *mgmterror.InvalidValueApplicationError:
-		pp := splitPath(e.Path)
+		pp := splitPathExact(e.Path)
 		if e.Message == missingValueMsg {
 			v.At = len(pp) + 1
 			v.Form = "missing-value"
@@ -82,7 +98,7 @@ func ValidatePath(ms schema.ModelSet, p []string, inc bool) (v PathVerdict) {
 			v.Form = "invalid-value"
 		}
 	case *mgmterror.MissingElementApplicationError:
-		v.At = len(splitPath(e.Path)) + 1
+		v.At = len(splitPathExact(e.Path)) + 1
 		v.Form = "missing-element"
 	default:
 		v.At = -1
